@@ -524,11 +524,11 @@ def check_proofs(ctx: Ctx, timeout=1500):
         return
     with build_lock():
         # the file list may have grown since the Makefile was generated
-        sh(["make", "-C", VERIF, "coq-makefile"], timeout=120)
+        sh(["make", "-C", VERIF, "coq-makefile", "COQ=" + COQ], timeout=120)
         cone = coq_cone(prop_v)
         deps = [os.path.relpath(p, COQ)[:-2] + ".vo" for p in cone if p != prop_v]
         # always regenerate dependency info: Gen files may have changed
-        rc, out, err = sh(["timeout", str(timeout), "make", "-C", COQ, "-j12"] + deps, timeout=timeout + 60)
+        rc, out, err = sh(["timeout", str(timeout), "make", "-C", COQ, "-j12", "COQC=timeout 900 coqc"] + deps, timeout=timeout + 60)
         if rc != 0:
             thm = _first_error(err + out)
             ctx.obligation("proof:build", False, thm[:300])
@@ -730,6 +730,7 @@ def main(argv=None):
     sys.path.insert(0, os.path.join(REPO, "src"))
     mod = importlib.import_module(f"props.{prop.lower()}")
     ctx = Ctx(prop, args.tier, seed, replay=args.replay)
+    iso = _isolate_coq_tree() if os.path.realpath(REPO) != "/repo" else None
     try:
         if args.replay:
             with open(args.replay) as f:
@@ -752,6 +753,21 @@ def main(argv=None):
         return finish(ctx, mod)
     finally:
         ctx.cleanup()
+        if iso:
+            shutil.rmtree(iso, ignore_errors=True)
+
+
+def _isolate_coq_tree():
+    """VERIF_REPO points at a scratch worktree (mutation testing): work on a private copy of the
+    Coq tree so that regenerated Gen/*.v and rebuilt .vo files never disturb /verif/coq."""
+    global COQ, THEORIES, CASES
+    d = tempfile.mkdtemp(prefix="verif-coq-")
+    dst = os.path.join(d, "coq")
+    shutil.copytree(COQ, dst, symlinks=True, ignore=shutil.ignore_patterns("cases", ".build.lock"))
+    COQ = dst
+    THEORIES = os.path.join(COQ, "theories")
+    CASES = os.path.join(COQ, "cases")
+    return d
 
 
 def _default_replay(ctx, mod, body):
